@@ -8,14 +8,14 @@ Open Scope Z_scope.
 Lemma lookup_advance st ms k : 0 <= ms ->
   lookup (advance st ms) k =
   match lookup st k with
-  | Some e => if live (rnow st + ms) e then Some e else None
+  | Some e => if live (expiry_inclusive st) (rnow st + ms) e then Some e else None
   | None => None
   end.
 Proof.
   intro H. unfold lookup, advance; cbn. destruct (find k (rdata st)) as [e|]; [|reflexivity].
   unfold live. destruct e as [v [t|]]; cbn; [|reflexivity].
-  destruct (rnow st <? t) eqn:A; [reflexivity|].
-  apply Z.ltb_ge in A. assert (B : (rnow st + ms <? t) = false) by (apply Z.ltb_ge; lia). now rewrite B.
+  destruct (before (expiry_inclusive st) (rnow st) t) eqn:A; [reflexivity|].
+  rewrite (before_false_mono _ (rnow st) (rnow st + ms) t ltac:(lia) A). reflexivity.
 Qed.
 
 Section Token.
@@ -52,7 +52,7 @@ Definition bucket_rel (st : rstate) (b : bucket) : Prop :=
               bsec b <= rnow st / 1000 /\
               forall t, E / 1000 <= t -> lvl b t = burst c)).
 
-Lemma bucket_rel_init base : 0 <= base -> bucket_rel (mkR base []) (mkB (burst c) 0).
+Lemma bucket_rel_init incl base : 0 <= base -> bucket_rel (mkR base [] incl) (mkB (burst c) 0).
 Proof.
   intro Hb. split; [cbn; lia|]. left. repeat split; auto.
   intros t Ht. unfold level; cbn. cbn in Ht.
@@ -65,10 +65,10 @@ Proof.
   - left. rewrite !lookup_advance, A, B by lia. repeat split; auto.
     intros t Ht. apply C. cbn in Ht. assert (rnow st / 1000 <= (rnow st + ms) / 1000) by (apply Z.div_le_mono; lia). lia.
   - rewrite !lookup_advance, A, B by lia. unfold live; cbn.
-    destruct (rnow st + ms <? E) eqn:L.
+    destruct (before (expiry_inclusive st) (rnow st + ms) E) eqn:L.
     + right. exists E. repeat split; auto. cbn.
       assert (rnow st / 1000 <= (rnow st + ms) / 1000) by (apply Z.div_le_mono; lia). lia.
-    + left. repeat split; auto. intros t Ht. apply D. cbn in Ht. apply Z.ltb_ge in L.
+    + left. repeat split; auto. intros t Ht. apply D. cbn in Ht. apply before_false_ge in L.
       assert (E / 1000 <= (rnow st + ms) / 1000) by (apply Z.div_le_mono; lia). lia.
 Qed.
 
@@ -102,8 +102,8 @@ Proof.
   set (ttl := token_ttl (rate c) (burst c)) in *.
   set (E' := rnow st + ttl * 1000).
   assert (HE : E' / 1000 = now + ttl) by (unfold E', now; apply Z.div_add; lia).
-  assert (Hlive : forall v, live (rnow st) (mkEntry v (Some E')) = true).
-  { intro v. unfold live; cbn. apply Z.ltb_lt. unfold E'. lia. }
+  assert (Hlive : forall v, live (expiry_inclusive st) (rnow st) (mkEntry v (Some E')) = true).
+  { intro v. unfold live; cbn. apply before_lt. unfold E'. lia. }
   assert (K1 : bulk_eqb (ktokens c) (kts c) = false) by (apply bulk_eqb_neq; exact Hkeys).
   assert (K2 : bulk_eqb (kts c) (ktokens c) = false) by (apply bulk_eqb_neq; congruence).
   assert (FULL : forall T', 0 <= T' -> forall t, E' / 1000 <= t -> lvl (mkB T' now) t = burst c).
@@ -111,12 +111,12 @@ Proof.
   destruct (n <=? lvl b now) eqn:G; eexists; (split; [reflexivity|]); (split; [|split]).
   - apply Z.leb_le in G. split; [cbn; lia|]. right. exists E'. cbn [btokens bsec].
     rewrite lookup_put_other, lookup_put_same, lookup_put_same by assumption.
-    cbn [rnow store_put]. rewrite !Hlive. repeat split; auto; try lia; try (apply FULL; lia).
+    cbn [rnow store_put expiry_inclusive]. rewrite !Hlive. repeat split; auto; try lia; try (apply FULL; lia).
   - reflexivity.
   - intros k H1 H2. rewrite !lookup_put_other by (apply bulk_eqb_neq; assumption). reflexivity.
   - apply Z.leb_gt in G. split; [cbn; lia|]. right. exists E'. cbn [btokens bsec].
     rewrite lookup_put_other, lookup_put_same, lookup_put_same by assumption.
-    cbn [rnow store_put]. rewrite !Hlive. repeat split; auto; try lia; try (apply FULL; lia).
+    cbn [rnow store_put expiry_inclusive]. rewrite !Hlive. repeat split; auto; try lia; try (apply FULL; lia).
   - reflexivity.
   - intros k H1 H2. rewrite !lookup_put_other by (apply bulk_eqb_neq; assumption). reflexivity.
 Qed.
@@ -143,15 +143,15 @@ Definition Rel (s : tstate) (a : tspec) : Prop :=
 
 Definition op_ok (clock : Z) (o : top) : Prop :=
   match o with
-  | TAllow _ now n _ => now = clock /\ 0 <= n
+  | TAllow _ now n _ _ => now = clock /\ 0 <= n
   | TAdvance ms => 0 <= ms
   | _ => True
   end.
 
 Definition dt (o : top) : Z := match o with TAdvance ms => ms | _ => 0 end.
 
-Lemma rel_init base n : 0 <= base ->
-  Rel (tinit base n) (mkSp (mkB (burst c) 0) base false (repeat (mkT true false) n)).
+Lemma rel_init incl base n : 0 <= base ->
+  Rel (tinit incl base n) (mkSp (mkB (burst c) 0) base false (repeat (mkT true false) n)).
 Proof. intro H. unfold Rel; cbn. split; [apply bucket_rel_init; auto | repeat split; auto]. Qed.
 
 Lemma set_nth_same {A} (l : list A) i t : nth_error l i = Some t -> set_nth i t l = l.
@@ -173,11 +173,11 @@ Proof.
   assert (MK : forall st' d l b' k, bucket_rel c st' b' -> rnow st' = k -> 0 <= k ->
             Rel (mkTS st' d l) (mkSp b' k d l)).
   { intros. unfold Rel; cbn. auto. }
-  destruct o as [i now n rescue|ms| | |i]; cbn [tstep sp_tstep dt tstore tdown tinsts sp_bucket sp_clock sp_tdown sp_insts].
+  destruct o as [i now n rescue brk|ms| | |i]; cbn [tstep sp_tstep dt tstore tdown tinsts sp_bucket sp_clock sp_tdown sp_insts].
   - destruct (nth_error l i) as [t|] eqn:Hn; [|cbn [fst snd]; split; [reflexivity|split; [exact HR|cbn; lia]]].
     unfold reserve.
     destruct (alive t); cbn [negb].
-    + destruct d.
+    + destruct (d || negb brk)%bool.
       * cbn [fst snd]. split; [reflexivity|]. split; [|cbn; lia]. apply MK; auto.
       * destruct Hok as [Hn1 Hn2]. subst now. unfold unix_s.
         pose proof (script_refines_bucket c Hrate Hburst Hkeys st b n RB ltac:(lia) Hn2) as S.
@@ -197,7 +197,7 @@ Qed.
 
 Lemma twf_cons clock o ops : twf clock (o :: ops) = true -> op_ok clock o /\ twf (clock + dt o) ops = true.
 Proof.
-  destruct o as [i now n rescue|ms| | |i]; cbn [twf op_ok dt]; rewrite ?Z.add_0_r; intro H; auto.
+  destruct o as [i now n rescue brk|ms| | |i]; cbn [twf op_ok dt]; rewrite ?Z.add_0_r; intro H; auto.
   - apply andb_true_iff in H. destruct H as [H H3]. apply andb_true_iff in H. destruct H as [H1 H2].
     apply Z.eqb_eq in H1. apply Z.leb_le in H2. auto.
   - apply andb_true_iff in H. destruct H as [H1 H2]. apply Z.leb_le in H1. auto.
@@ -231,15 +231,15 @@ Proof.
   - cbv zeta. split; [|split; [auto|lia]].
     pose proof (level_lipschitz (rate c) (burst c) ltac:(lia) (sp_bucket a) t0 (unix_s (sp_clock a)) Ht0). lia.
   - apply twf_cons in Hwf. destruct Hwf as [Hok Hwf].
-    destruct o as [i now n rescue|ms| | |i]; cbn [sp_tstep dt] in *; rewrite ?Z.add_0_r in Hwf.
+    destruct o as [i now n rescue brk|ms| | |i]; cbn [sp_tstep dt] in *; rewrite ?Z.add_0_r in Hwf.
     + destruct (nth_error (sp_insts a) i) as [t|]; [|cbn [fst]; apply IH; auto].
       destruct (alive t); cbn [negb]; [|cbn [fst snd]; destruct rescue; apply IH; auto].
-      destruct (sp_tdown a); [cbn [fst snd]; destruct rescue; apply (IH (mkSp _ _ _ _)); auto|].
+      destruct (sp_tdown a || negb brk)%bool; [cbn [fst snd]; destruct rescue; apply (IH (mkSp _ _ _ _)); auto|].
       destruct Hok as [-> Hn].
       pose proof (take_accounts (rate c) (burst c) ltac:(lia) ltac:(lia) (sp_bucket a) (unix_s (sp_clock a)) n HT Hn) as A.
       destruct (bucket_take (rate c) (burst c) (sp_bucket a) (unix_s (sp_clock a)) n) as [b' g].
       destruct A as [A1 [A2 [A3 A4]]]. cbn [fst].
-      specialize (IH (mkSp b' (sp_clock a) false (set_nth i t (sp_insts a))) (unix_s (sp_clock a)) Hwf (proj1 A2) (Z.le_refl _)).
+      specialize (IH (mkSp b' (sp_clock a) (sp_tdown a) (set_nth i t (sp_insts a))) (unix_s (sp_clock a)) Hwf (proj1 A2) (Z.le_refl _)).
       cbv zeta in IH. destruct IH as [I1 [I2 I3]]. cbn [sp_clock sp_bucket] in I1, I3.
       assert (L : lvl b' (unix_s (sp_clock a)) = btokens b') by (rewrite <- A3; apply level_at_own_time; auto).
       pose proof (level_lipschitz (rate c) (burst c) ltac:(lia) (sp_bucket a) t0 (unix_s (sp_clock a)) Ht0).
